@@ -419,6 +419,8 @@ def check(eng, res):
     res.doc("R-POOLS", "partner pool and filter per phase (7 decision points) agree with the notation's semantics")
     res.doc("R-TRANSITIONS", "transition list of the reacted descriptor; positions decoded as repeat then end descriptors")
     res.doc("R-TERMINAL-TRANSFER", "left terminal's weight and transitions copied onto the prefix's open descriptor")
+    res.doc("R-INDEX-SPACE", "the indices handed to attach_other are the drawn ones, in the lists they were drawn from (shared with C04)")
+    res.doc("R-RESERVE-PAIR", "the descriptor reserved for the right terminal is removed from the open list while capping picks are made (shared with C06)")
     res.doc("R-WEIGHT-INVARIANT", "weight == Σ transitions wherever a transition list is stored")
     reach = eng.reachable_funcs(generate_roots(eng))
     molpath = {q for q in reach if not q.startswith("system.")}
@@ -429,6 +431,14 @@ def check(eng, res):
     res.floor("R-POOLS", ns, 7)
     check_transitions(eng, res)
     check_terminal_transfer(eng, res)
+    # the drawn descriptors are the ones that react (index spaces at the attach sites, from C04) and the descriptor kept for
+    # the right terminal is really taken out of the capping picks (from C06)
+    from . import c04, c06
+
+    sub = type(res)(res.prop)
+    c04.index_space(eng, sub)
+    c06.reserve_pair(eng, sub)
+    res.obligations += sub.obligations
     nw = check_weight_invariant(eng, res)
     res.floor("R-WEIGHT-INVARIANT", nw, 2)
     res.assumptions += ["numpy Generator.choice(a, p=p) draws a[i] with probability p[i]", "R-WEIGHT-DEF (C02) and R-LOCKSTEP (C04) hold"]
